@@ -148,6 +148,10 @@ theorem Atom.den_ne {a : Atom} (h : a.op = .ne) (v : String) : a.den v = (v != a
 theorem Atom.den_eq {a : Atom} (h : a.op = .eq) (v : String) : a.den v = (v == a.value) := by
   simp [Atom.den, h]
 
+theorem onlyNe_of_wfG {cs : List Atom} (h : ∀ c ∈ cs, c.x = false ∧ c.op = .ne) : onlyNe cs = true := by
+  simp only [onlyNe, List.all_eq_true, beq_iff_eq]
+  exact fun c hc => (h c hc).2
+
 theorem multiIntersectA_G (cs : List Atom) (o : Atom) (hcs : (GS.multi false cs).wfG = true)
     (ho : (GS.atom o).wfG = true) :
     ∃ r, multiIntersectA false cs o = .ok r ∧ r.wfG = true ∧
@@ -161,53 +165,52 @@ theorem multiIntersectA_G (cs : List Atom) (o : Atom) (hcs : (GS.multi false cs)
     simp only [GS.den, GS.sem]
     exact (all_and_of_mem _ cs o (by simpa using h1)).symm
   · simp only [h1, Bool.false_eq_true, if_false]
-    by_cases h2 : (cs.map (fun c => c.value)).contains o.value = true
-    · simp only [h2, if_true]
-      refine ⟨_, rfl, rfl, fun v => ?_⟩
-      simp only [List.contains_iff_mem, List.mem_map] at h2
-      obtain ⟨c, hc, hcv⟩ := h2
-      have hco : o.op = .eq := by
-        rcases hoo with h | h
-        · exact h
-        · exfalso; apply h1
-          have : o = c := by
-            obtain ⟨cv, cop, cx⟩ := c; obtain ⟨ov, oop, ox⟩ := o
-            have := hcs' _ hc; simp at this hcv h hox; simp [this, hcv, h, hox]
-          simpa [this] using hc
-      simp only [GS.den, GS.sem]
-      cases hov : o.den v
-      · simp
-      · have hv : v = o.value := by simpa [Atom.den_eq hco] using hov
-        have : c.den v = false := by simp [Atom.den_ne (hcs' c hc).2, hv, hcv]
-        have : cs.all (fun c => c.den v) = false := by
-          simp only [List.all_eq_false]; exact ⟨c, hc, by simp [this]⟩
-        simp [this]
-    · simp only [h2, Bool.false_eq_true, if_false]
-      rcases hoo with hoe | hon
-      · simp only [hoe, multiOps_false]
-        refine ⟨_, by simp, ho, fun v => ?_⟩
+    rcases hoo with hoe | hon
+    · have hcond : (o.op == Op.eq && !(multiOps false).contains "==") = true := by
+        simp [hoe, multiOps_false]
+      rw [if_pos hcond]
+      have hall : (GS.multi false cs).allowsV o.value = cs.all (fun c => c.den o.value) := by
+        simp [GS.allowsV, Atom.allowsV_eq_den]
+      by_cases h2 : (GS.multi false cs).allowsV o.value = true
+      · rw [if_pos h2]
+        refine ⟨_, rfl, ho, fun v => ?_⟩
         simp only [GS.den, GS.sem]
         cases hov : o.den v
         · simp
         · have hv : v = o.value := by simpa [Atom.den_eq hoe] using hov
-          have : cs.all (fun c => c.den v) = true := by
-            simp only [List.all_eq_true]
-            intro c hc
-            simp only [Atom.den_ne (hcs' c hc).2, hv, bne_iff_ne, ne_eq]
-            intro e
-            apply h2
-            simp only [List.contains_iff_mem, List.mem_map]
-            exact ⟨c, hc, e.symm⟩
-          simp [this]
-      · have hall : ∀ c ∈ cs ++ [o], c.x = false ∧ c.op = .ne := by
-          intro c hc
-          rcases List.mem_append.mp hc with h | h
-          · exact hcs' c h
-          · simp at h; subst h; exact ⟨hox, hon⟩
-        simp only [hon, show (Op.ne == Op.eq) = false from rfl, Bool.false_and, Bool.false_eq_true, if_false]
-        rw [mkMulti_false_ok _ (fun c hc => (hall c hc).2)]
-        refine ⟨_, rfl, wfG_multi_mk hall, fun v => ?_⟩
-        simp [GS.den, GS.sem, List.all_append]
+          rw [hv, ← hall, h2]; rfl
+      · rw [if_neg h2]
+        refine ⟨_, rfl, rfl, fun v => ?_⟩
+        simp only [GS.den, GS.sem]
+        cases hov : o.den v
+        · simp
+        · have hv : v = o.value := by simpa [Atom.den_eq hoe] using hov
+          rw [hv, ← hall]
+          simp only [Bool.not_eq_true] at h2
+          simp [h2]
+    · have hcond : ¬ (o.op == Op.eq && !(multiOps false).contains "==") = true := by
+        simp [hon]
+      rw [if_neg hcond]
+      have hinv : o.invert = .ok ⟨o.value, .eq, false⟩ := by
+        obtain ⟨ov, oop, ox⟩ := o
+        simp only at hon hox; subst hon; subst hox
+        exact Op.inv_ne ov false
+      rw [hinv]
+      simp only
+      have hni : ¬ cs.contains (⟨o.value, .eq, false⟩ : Atom) = true := by
+        simp only [List.contains_eq_mem, decide_eq_true_eq]
+        intro hm
+        have := (hcs' _ hm).2
+        simp at this
+      rw [if_neg hni]
+      have hall : ∀ c ∈ cs ++ [o], c.x = false ∧ c.op = .ne := by
+        intro c hc
+        rcases List.mem_append.mp hc with h | h
+        · exact hcs' c h
+        · simp at h; subst h; exact ⟨hox, hon⟩
+      rw [mkMulti_false_ok _ (fun c hc => (hall c hc).2)]
+      refine ⟨_, rfl, wfG_multi_mk hall, fun v => ?_⟩
+      simp [GS.den, GS.sem, List.all_append]
 
 theorem all_append_filter_not_mem {α : Type} [DecidableEq α] (f : α → Bool) (cs ds : List α) :
     (cs ++ ds.filter (fun c => !cs.contains c)).all f = (cs.all f && ds.all f) := by
@@ -280,7 +283,8 @@ theorem multiUnionM_G (cs ds : List Atom) (y : Bool) (hcs : (GS.multi false cs).
     · rintro (h | h) c ⟨hc, hd⟩
       · exact h c hc
       · exact h c hd
-  simp only [multiUnionM, Bool.false_eq_true, if_false]
+  simp only [multiUnionM, Bool.false_eq_true, if_false, onlyNe_of_wfG hcs', onlyNe_of_wfG hds', Bool.and_self,
+    Bool.not_true]
   by_cases he : (cs.filter (fun c => ds.contains c)).isEmpty = true
   · simp only [he, if_true]
     refine ⟨_, rfl, rfl, fun v => ?_⟩
@@ -296,6 +300,7 @@ theorem multiUnionM_G (cs ds : List Atom) (y : Bool) (hcs : (GS.multi false cs).
 /-- meaning of `match l with | [c] => atom c | l => multi l` -/
 theorem den_single_or_multi (l : List Atom) (v : String) (r : GC)
     (h : (match l with
+          | [] => (.ok GC.any : PyM GC)
           | [c] => (.ok (GC.atom c) : PyM GC)
           | l => match mkMulti false l with
             | .error e => .error e
@@ -307,8 +312,6 @@ theorem den_single_or_multi (l : List Atom) (v : String) (r : GC)
     have := hl c (by simp)
     simp [GC.wfG, GS.wfG, Atom.isEqNe, this, GC.den, GC.sem, GS.sem]
   | [], h, hl =>
-    dsimp only at h
-    rw [mkMulti_false_ok _ (fun c hc => (hl c hc).2)] at h
     simp only [Except.ok.injEq] at h; subst h
     simp [GC.wfG, GS.wfG, GC.den, GC.sem, GS.sem]
   | a :: b :: t, h, hl =>
@@ -319,13 +322,14 @@ theorem den_single_or_multi (l : List Atom) (v : String) (r : GC)
 
 theorem single_or_multi_ok (l : List Atom) (hl : ∀ c ∈ l, c.x = false ∧ c.op = .ne) :
     ∃ r, (match l with
+          | [] => (.ok GC.any : PyM GC)
           | [c] => (.ok (GC.atom c) : PyM GC)
           | l => match mkMulti false l with
             | .error e => .error e
             | .ok m => .ok (.s m)) = .ok r := by
   match l, hl with
   | [c], _ => exact ⟨_, rfl⟩
-  | [], hl => dsimp only; rw [mkMulti_false_ok _ (fun c hc => (hl c hc).2)]; exact ⟨_, rfl⟩
+  | [], hl => exact ⟨_, rfl⟩
   | a :: b :: t, hl => dsimp only; rw [mkMulti_false_ok _ (fun c hc => (hl c hc).2)]; exact ⟨_, rfl⟩
 
 theorem multiUnionA_G (cs : List Atom) (o : Atom) (hcs : (GS.multi false cs).wfG = true)
@@ -345,6 +349,9 @@ theorem multiUnionA_G (cs : List Atom) (o : Atom) (hcs : (GS.multi false cs).wfG
     · simp
     · simp only [List.all_eq_true] at hall; simp [hall o hm]
   · simp only [h1, Bool.false_eq_true, if_false]
+    have hfrag : ¬ (!(onlyNe cs && (o.op == Op.eq || o.op == Op.ne))) = true := by
+      rcases hoo with h | h <;> simp [onlyNe_of_wfG hcs', h]
+    rw [if_neg hfrag]
     by_cases h2 : (cs.map (fun c => c.value)).contains o.value = true
     · -- same value, other operator: `o` is `==`
       simp only [h2, Bool.not_true, Bool.false_eq_true, if_false]
